@@ -84,9 +84,52 @@ def gen_host_op(d: Draw, cfg):
     return {'op': how, 'name': name, 'kind': kind, 'args': {'value': gen_value(d, kind, n)}, 'target': 'host'}
 
 
+def gen_host_orbit_op(d: Draw, cfg):
+    """An orbital update addressed to the tidal HOST: by design its signature points at the orbit of its tide raiser
+    (the first tidal body), so this is one more path by which that body's (a, n, P, e) are changed."""
+    n = cfg['N']
+    how = d.weighted([('w.set_state', 3), ('o.set_state', 3), ('o.setter', 2), ('w.prop', 2)])
+    if how in ('w.set_state', 'o.set_state'):
+        args = {}
+        for f in ([f for f in ('sep', 'eccentricity') if d.chance(1, 2)] or [d.pick(['sep', 'eccentricity'])]):
+            if f == 'sep':
+                kind = d.pick(SEP_KINDS)
+                args[kind] = gen_value(d, kind, n)
+            else:
+                args[f] = gen_value(d, f, n)
+        return {'op': how, 'args': args, 'target': 'host'}
+    if how == 'o.setter':
+        kind = d.pick(SEP_KINDS + ['eccentricity'])
+        return {'op': 'o.setter', 'name': 'set_' + kind, 'sig': d.pick(['instance', 'name']), 'target': 'host',
+                'args': {'value': gen_value(d, kind, n)}}
+    name, kind = d.pick([('eccentricity', 'eccentricity'), ('semi_major_axis', 'semi_major_axis'),
+                         ('orbital_frequency', 'orbital_frequency'), ('orbital_period', 'orbital_period')])
+    return {'op': 'w.prop', 'name': name, 'kind': kind, 'target': 'host', 'args': {'value': gen_value(d, kind, n)}}
+
+
+def gen_set_states(d: Draw, cfg):
+    """orbit.set_states([...]): one batched orbit-level call for several bodies."""
+    n = cfg['N']
+    nb = cfg.get('n_bodies', 1)
+    targets = d.shuffled(list(range(nb)))[:d.between(1, nb)]
+    op = {'op': 'o.set_states', 'targets': targets, 'sig': d.pick(['instance', 'name']), 'lists': {}}
+    kinds = [k for k in ('sep', 'eccentricity') if d.chance(1, 2)] or [d.pick(['sep', 'eccentricity'])]
+    for k in kinds:
+        if k == 'sep':
+            kind = d.pick(SEP_KINDS)
+            op['lists'][kind] = [gen_value(d, kind, n) for _ in targets]
+        else:
+            op['lists']['eccentricity'] = [gen_value(d, 'eccentricity', n) for _ in targets]
+    return op
+
+
 def gen_op(d: Draw, cfg, prop):
     if cfg.get('host_tides') and prop == 'C13' and d.chance(1, 5):
         return gen_host_op(d, cfg)
+    if cfg['host'] == 'giant' and d.chance(1, 8):
+        return gen_host_orbit_op(d, cfg)
+    if d.chance(1, 10 if cfg.get('n_bodies', 1) < 2 else 5):
+        return gen_set_states(d, cfg)
     if cfg.get('n_bodies', 1) >= 2 and d.chance(1, 3):
         # an update of the companion body: it is a simple CPL world with its own spin-sync flag
         cfg2 = dict(cfg, model='cpl', sync=cfg.get('sync2', True))
@@ -186,8 +229,21 @@ def model_apply(state, op, n_layers=None):
     """The reference model: last applied value of every independent variable (and how the separation / spin were given)."""
     kind = op['op']
     a = op.get('args', {})
+    if kind == 'o.set_states':
+        plural = {'eccentricity': 'eccentricity', 'semi_major_axis': 'semi_major_axis', 'orbital_frequency': 'orbital_frequency',
+                  'orbital_period': 'orbital_period'}
+        for pos, tgt in enumerate(op['targets']):
+            st = state.setdefault('body%d' % tgt, {})
+            for key, vals in op['lists'].items():
+                if key in SEP_KINDS:
+                    st['sep'] = (key, vals[pos])
+                else:
+                    st[key] = vals[pos]
+        return
     if kind != 'o.time':
         tgt = op.get('target', 0)
+        if tgt == 'host' and _is_orbital(op):
+            tgt = 0        # the host's signature addresses the orbit of its tide raiser = the first tidal body
         state = state.setdefault('host' if tgt == 'host' else 'body%d' % tgt, {})
     if kind in ('w.set_state', 'o.set_state'):
         for key, v in a.items():
@@ -219,6 +275,15 @@ def model_apply(state, op, n_layers=None):
     elif kind == 'layer.temperature':
         li = op['layer'] % n_layers if n_layers else op['layer']
         state.setdefault('T', {})[li] = a['value']
+
+
+def _is_orbital(op):
+    keys = list(op.get('args', {}).keys())
+    if op['op'] in ('w.set_state', 'o.set_state'):
+        return any(k in SEP_KINDS or k == 'eccentricity' for k in keys)
+    if op['op'] == 'o.setter':
+        return True
+    return op.get('kind') in SEP_KINDS + ['eccentricity']
 
 
 def place_twin(twin, state):
@@ -362,7 +427,7 @@ class OopStateEngine(EngineBase):
                     continue
                 if key in ('host', 'host_tides') and any(o.get('target') == 'host' for o in plan['ops']):
                     continue
-                if key == 'n_bodies' and any(o.get('target') == 1 for o in plan['ops']):
+                if key == 'n_bodies' and any(o.get('target') == 1 or 1 in o.get('targets', []) for o in plan['ops']):
                     continue
                 new = copy.deepcopy(plan)
                 new['config'][key] = plain
@@ -421,7 +486,7 @@ class OopStateEngine(EngineBase):
         obs_digest = []
         for i, op in enumerate(plan['ops']):
             label = _op_label(op)
-            bump('op:' + op['op'] + (':' + op.get('name', '') if op.get('name') else ''))
+            bump('op:' + op['op'] + (':' + op.get('name', '') if op.get('name') else '') + ('@host' if op.get('target') == 'host' else ''))
             raised = None
             try:
                 hist.apply(op)
@@ -699,6 +764,10 @@ def _abstract(state):
 
 def _trigger(op):
     """What kind of change the failing step made (used as the violation class, so one stale path = one class)."""
+    if op['op'] == 'o.set_states':
+        return 'set_states:' + '+'.join(sorted(('sep' if k in SEP_KINDS else k) for k in op['lists']))
+    if op.get('target') == 'host' and _is_orbital(op):
+        return 'via-host:' + _trigger({k: v for k, v in op.items() if k != 'target'})
     if op['op'] in ('w.set_state', 'o.set_state'):
         keys = sorted(('sep' if k in SEP_KINDS else 'spin' if k in SPIN_KINDS else k) for k in op['args'])
         return '+'.join(keys)
@@ -716,6 +785,15 @@ def _trigger(op):
 
 
 def _op_label(op):
+    if op['op'] == 'o.set_states':
+        def val0(v):
+            return ('%g' % v['v']) + ('[]' if v.get('arr') else '')
+        return 'o.set_states(%s by %s; %s)' % (['body%d' % t for t in op['targets']], op.get('sig'),
+                                               ', '.join('%s=[%s]' % (k, ', '.join(val0(x) for x in v)) for k, v in op['lists'].items()))
+    return _op_label1(op)
+
+
+def _op_label1(op):
     def val(v):
         if isinstance(v, dict):
             return ('%g' % v['v']) + ('[]' if v.get('arr') else '') + ('(0@%d)' % v['zero_at'] if v.get('zero_at') else '')
